@@ -170,40 +170,67 @@ package curl
 //@   modifies c.h
 //@   panics   never
 
-// ---- C06 stage 2: one block per call, batch sizes NL = 1, 2 and 64 (the outer slice is modelled as a
-// sequence of exactly NL trit slices). p is the state just before the transformation: lane j of its first
+// ---- C06 stage 2: at most one block per call, batch sizes NL = 0, 1, 2, 64 and 65 (the outer slice is
+// modelled as a sequence of exactly NL trit slices; 0 and 65 are the invalid sizes). p is the state just before the transformation: lane j of its first
 // 243 words holds src[j], the lanes beyond the batch hold zero trits, the other words are untouched.
+
+// (variant: a length that is not a multiple of 243 is refused and leaves the sponge untouched)
+//@ func (c *Curl) Absorb(src []trinary.Trits, tritsCount int) (err error)
+//@   variant badlen
+//@   props C06
+//@   repr uint
+//@   specialize NL = 1 64
+//@   seqlen src NL
+//@   requires tritsCount % 243 != 0
+//@   panics  never
+//@   ensures is(err, consts.ErrInvalidTritsLength) && c.direction == old(c.direction)
+//@   ensures forall(i, 0, 729, c.l[i] == old(c.l[i]) && c.h[i] == old(c.h[i]))
 
 //@ func (c *Curl) Absorb(src []trinary.Trits, tritsCount int) (err error)
 //@   props C06
 //@   repr uint
-//@   specialize NL = 1 2 64
+//@   specialize NL = 0 1 2 64 65
 //@   seqlen src NL
 //@   let p = recv(Curl.transform, 1)
 //@   requires tritsCount == 243 && forall(j, 0, NL, len(src[j]) >= 243)
-//@   panics  when c.direction != SpongeAbsorbing
+//@   panics  when 1 <= NL && NL <= 64 && c.direction != SpongeAbsorbing
 //@   modifies c.l
 //@   modifies c.h
-//@   ensures isnil(err) && c.direction == SpongeAbsorbing
-//@   ensures forall(i, 0, 729, c.l[i] == st(81, i, 0, p.l, p.h) && c.h[i] == st(81, i, 1, p.l, p.h))
-//@   ensures forall(i, 0, 243, forall(j, 0, NL, bitset(p.l[i], uint(j)) == (src[j][i] <= 0) && bitset(p.h[i], uint(j)) == (src[j][i] >= 0)))
-//@   ensures forall(i, 0, 243, forall(j, NL, 64, bitset(p.l[i], uint(j)) && bitset(p.h[i], uint(j))))
-//@   ensures forall(i, 243, 729, p.l[i] == old(c.l[i]) && p.h[i] == old(c.h[i]))
+//@   ensures c.direction == old(c.direction)
+//@   ensures implies(NL < 1 || NL > 64, is(err, consts.ErrInvalidBatchSize) && forall(i, 0, 729, c.l[i] == old(c.l[i]) && c.h[i] == old(c.h[i])))
+//@   ensures implies(1 <= NL && NL <= 64, isnil(err))
+//@   ensures implies(isnil(err), forall(i, 0, 729, c.l[i] == st(81, i, 0, p.l, p.h) && c.h[i] == st(81, i, 1, p.l, p.h)))
+//@   ensures implies(isnil(err), forall(i, 0, 243, forall(j, 0, NL, bitset(p.l[i], uint(j)) == (src[j][i] <= 0) && bitset(p.h[i], uint(j)) == (src[j][i] >= 0))))
+//@   ensures implies(isnil(err), forall(i, 0, 243, forall(j, NL, 64, bitset(p.l[i], uint(j)) && bitset(p.h[i], uint(j)))))
+//@   ensures implies(isnil(err), forall(i, 243, 729, p.l[i] == old(c.l[i]) && p.h[i] == old(c.h[i])))
 
 // Squeeze of one block: the state is transformed first exactly when the sponge was already squeezing;
 // lane j of the (new) state is written to a fresh 243-trit slice dst[j].
+// (variant: a length that is not a multiple of 243 is refused and leaves the sponge untouched)
+//@ func (c *Curl) Squeeze(dst []trinary.Trits, tritsCount int) (err error)
+//@   variant badlen
+//@   props C06
+//@   repr uint
+//@   specialize NL = 1 64
+//@   seqlen dst NL
+//@   requires tritsCount % 243 != 0
+//@   panics  never
+//@   ensures is(err, consts.ErrInvalidSqueezeLength) && c.direction == old(c.direction)
+//@   ensures forall(i, 0, 729, c.l[i] == old(c.l[i]) && c.h[i] == old(c.h[i]))
+
 //@ func (c *Curl) Squeeze(dst []trinary.Trits, tritsCount int) (err error)
 //@   props C06
 //@   repr uint
-//@   specialize NL = 1 2 64
+//@   specialize NL = 0 1 2 64 65
 //@   seqlen dst NL
 //@   requires tritsCount == 243
 //@   panics  never
 //@   modifies c.l
 //@   modifies c.h
 //@   modifies c.direction
-//@   check   forall(j, 0, NL, len(dst[j]) == 243)
-//@   check   forall(j, 0, NL, forall(t, 0, 243, int(dst[j][t]) == trit(c.l[t], c.h[t], uint(j))))
-//@   ensures isnil(err) && c.direction == SpongeSqueezing
-//@   ensures implies(old(c.direction) == SpongeSqueezing, forall(i, 0, 729, c.l[i] == st(81, i, 0, old(c.l), old(c.h)) && c.h[i] == st(81, i, 1, old(c.l), old(c.h))))
-//@   ensures implies(old(c.direction) != SpongeSqueezing, forall(i, 0, 729, c.l[i] == old(c.l[i]) && c.h[i] == old(c.h[i])))
+//@   check   implies(1 <= NL && NL <= 64, forall(j, 0, NL, len(dst[j]) == 243))
+//@   check   implies(1 <= NL && NL <= 64, forall(j, 0, NL, forall(t, 0, 243, int(dst[j][t]) == trit(c.l[t], c.h[t], uint(j)))))
+//@   ensures implies(NL < 1 || NL > 64, is(err, consts.ErrInvalidBatchSize) && c.direction == old(c.direction) && forall(i, 0, 729, c.l[i] == old(c.l[i]) && c.h[i] == old(c.h[i])))
+//@   ensures implies(1 <= NL && NL <= 64, isnil(err) && c.direction == SpongeSqueezing)
+//@   ensures implies(isnil(err) && old(c.direction) == SpongeSqueezing, forall(i, 0, 729, c.l[i] == st(81, i, 0, old(c.l), old(c.h)) && c.h[i] == st(81, i, 1, old(c.l), old(c.h))))
+//@   ensures implies(isnil(err) && old(c.direction) != SpongeSqueezing, forall(i, 0, 729, c.l[i] == old(c.l[i]) && c.h[i] == old(c.h[i])))
